@@ -37,6 +37,18 @@ mut("revert-F1", HP, "        yield True, string\n        return\n", "        yi
 mut("crawled-flag-on-readd", LT, "        elif crawled and not node.is_crawled():", "        elif not node.is_crawled():", ["C01"])
 mut("inlinks-wrong-weight", LS, "            weights[node.target()] += 1\n", "            weights[node.target()] = 1\n", ["C03"])
 
+WH = "traph/lru_trie/walk_history.py"
+mut("resolve-shallowest", WH, "    def update_webentity(self, weid, prefix, position):\n        self.webentity = weid",
+    "    def update_webentity(self, weid, prefix, position):\n        if self.webentity:\n            return\n        self.webentity = weid", ["C04", "C05"])
+mut("addprefix-no-refusal", T, "        if node.has_webentity():\n            raise TraphException(\n                \"Prefix %s already attributed to webentity %s\"\n                % (prefix, node.webentity())\n            )\n        else:\n            node.set_webentity(weid)\n            node.write()\n            return True",
+    "        node.set_webentity(weid)\n        node.write()\n        return True", ["C04"])
+mut("id-header-not-persisted", T, "        header.increment_last_webentity_id()\n        header.write()\n", "        header.increment_last_webentity_id()\n", ["C12", "C11"])
+mut("id-reuse-after-delete", T, "        for prefix, node in prefix_index.items():\n            node.unset_webentity()\n            node.write()\n\n        return True",
+    "        for prefix, node in prefix_index.items():\n            node.unset_webentity()\n            node.write()\n\n        header = self.lru_trie.header\n        if weid == header.last_webentity_id():\n            header.set_last_webentity_id(weid - 1)\n            header.write()\n\n        return True", ["C12"])
+mut("addprefix-no-ancestor-flag", T, "        node, history = self.lru_trie.add_lru(\n            prefix, flag_can_have_child_webentities=True\n        )\n        if node.has_webentity():\n            raise TraphException(",
+    "        node, history = self.lru_trie.add_lru(prefix)\n        if node.has_webentity():\n            raise TraphException(", ["C13"])
+mut("flag-only-new-nodes", LT, "            # Flagging for underlying webentities\n            if (\n                i < l - 1\n                and flag_can_have_child_webentities\n                and not node.can_have_child_webentities()\n            ):\n                node.flag_can_have_child_webentities()\n                node.write()\n",
+    "", ["C13"])
 
 def main():
     args = [a for a in sys.argv[1:] if not a.startswith("--")]
